@@ -108,6 +108,9 @@ def valid_channel_f(ch):
     return z3.And(*[c for _, c in valid_channel(ch)])
 
 
+PI = z3.Real('PI')   # symbolic positive constant (A-REAL); only PI > 3 is assumed
+
+
 # ---- _TimeSlot -------------------------------------------------------------
 def s_ti(s):
     return uf("_TimeSlot.ti", Ref, I)(s)
@@ -132,8 +135,11 @@ def s_targets(s):
 TARGET, DELAY, PULSE = 0, 1, 2
 
 
+WDUR = uf("WDUR", Ref, I)   # abstract Waveform.duration (every subclass implements it; behavioural-subtyping contract)
+
+
 def p_duration(p):
-    return uf("Waveform._duration", Ref, I)(uf("Pulse.amplitude", Ref, Ref)(p))
+    return WDUR(uf("Pulse.amplitude", Ref, Ref)(p))
 
 
 def p_phase(p):
@@ -192,11 +198,11 @@ def in_eom(h, cs):
 
 # ---- _Schedule -------------------------------------------------------------
 def sch_dom(h, sch):
-    return h.read("_Schedule.items.dom", sch)
+    return h.read("_Schedule._d.dom", sch)
 
 
 def sch_map(h, sch):
-    return h.read("_Schedule.items.map", sch)
+    return h.read("_Schedule._d.map", sch)
 
 
 def sch_get(h, sch, key):
@@ -230,3 +236,36 @@ axiom("A-FALL", z3.ForAll([_p, _c, _e], z3.And(FALL(_p, _c, _e) >= 0, FALL(_p, _
 axiom("A-RISE>=0", z3.ForAll([_c], RISE(_c) >= 0, patterns=[RISE(_c)]), "rise_time contract: nonneg (proved)")
 axiom("A-EOMBW", z3.ForAll([_c], z3.And(EOM_RISE(_c) >= 0, z3.ForAll([_p], z3.Implies(fget("Channel", "eom_config", _p) == _c, EOM_RISE(_c) <= RISE(_p)))), patterns=[EOM_RISE(_c)]),
       "input-validity assumption: an EOM's modulation bandwidth is not below its channel's (DESIGN section 5 item 14)")
+
+
+# ---- spec functions over a slot list (conservative definitions) -------------
+SlotArr = z3.ArraySort(I, Ref)
+LPSI = uf("LPSI", SlotArr, I, B, I)   # index of the most recent pulse slot (optionally ignoring detuned delays)
+LTI = uf("LTI", SlotArr, I, I)        # index of the most recent target slot
+
+
+def lps_match(arr, k, ign):
+    s = z3.Select(arr, k)
+    return z3.And(s_kind(s) == PULSE, z3.Not(z3.And(ign, IS_DETUNED_DELAY(s_pulse(s)))))
+
+
+def lpsi_def(arr, n, ign):
+    """If some slot matches, LPSI is a matching index and no later index matches."""
+    k = z3.Int("k!lps")
+    L = LPSI(arr, n, ign)
+    return z3.ForAll([k], z3.Implies(z3.And(0 <= k, k < n, lps_match(arr, k, ign)),
+                                     z3.And(L >= k, L < n, lps_match(arr, L, ign))), patterns=[z3.Select(arr, k)])
+
+
+def lps_none(arr, n, ign):
+    k = z3.Int("k!lpn")
+    return z3.ForAll([k], z3.Implies(z3.And(0 <= k, k < n), z3.Not(lps_match(arr, k, ign))), patterns=[z3.Select(arr, k)])
+
+
+def lti_def(arr, n):
+    k = z3.Int("k!lt")
+    L = LTI(arr, n)
+    return z3.ForAll([k], z3.Implies(z3.And(0 <= k, k < n, s_kind(z3.Select(arr, k)) == TARGET),
+                                     z3.And(L >= k, L < n, s_kind(z3.Select(arr, L)) == TARGET)), patterns=[z3.Select(arr, k)])
+
+axiom("A-PI", z3.And(PI > 3, PI < 4), "pi is a real constant between 3 and 4 (only its positivity/size is ever used)")
